@@ -18,3 +18,6 @@ func raceReleaseMerge(p unsafe.Pointer) { runtime.RaceReleaseMerge(p) }
 // RaceAcquire / RaceRelease let other simulator packages publish happens-before edges.
 func RaceAcquire(p unsafe.Pointer) { runtime.RaceAcquire(p) }
 func RaceRelease(p unsafe.Pointer) { runtime.RaceReleaseMerge(p) }
+
+// RaceErrors is the number of race reports printed so far by the Go race detector.
+func RaceErrors() int { return runtime.RaceErrors() }
